@@ -1,6 +1,7 @@
 import PcbV.Lemmas.DecimalText
 import PcbV.Lemmas.DecimalScan
 import PcbV.Lemmas.DecimalBound
+import PcbV.Lemmas.DecimalChain
 /-
   C07 — Decimal conversion is accurate in both directions.
 
@@ -469,15 +470,18 @@ def pow10 (k : Int) : Rat := if k ≥ 0 then (10 : Rat) ^ k.toNat else 1 / (10 :
 /-- **Printing error bound** (statement; correspondence-only over the whole exponent range): the
     decimal `m·10^e` that `to_decimal` returns is less than one unit of its last digit away from the
     stored value.  The error of the up to 39 chained `_div10_den` / 55 chained `_mul10_den` steps on a
-    mantissa with one extra byte is what accumulates; only the digit bound, not this bound, is proved.
+    mantissa with one extra byte is what accumulates; proved are the digit bound and the error of the
+    two scaling loops (`print_scaling_partial`), not yet the two carries and the final rounding.
     Worst case seen by the check: 0.76 (Single) / 0.625 (Double) units over 10^6 patterns. -/
 def PrintErrorBound (f : Fmt) : Prop :=
   ∀ x : F, x.Valid f → x.e ≠ 0 → ∀ m e, toDecimal f x f.digits = some (m, e) →
     -(pow10 e) < val f x - (m : Rat) * pow10 e ∧ val f x - (m : Rat) * pow10 e < pow10 e
 
-/-- **Parsing error bound** (statement; correspondence-only): for a digit string that fits the
-    mantissa (`|m| < 2^w`; longer ones are truncated by `from_int`, known finding) the stored value is
-    less than one unit in the last place away from `m·10^e`.  Worst case seen: 0.70 ulp. -/
+/-- **Parsing error bound** (statement): for a digit string that fits the mantissa (`|m| < 2^w`;
+    longer ones are truncated by `from_int`, known finding) the stored value is less than one unit in
+    the last place away from `m·10^e`.  Proved for `−28 ≤ e ≤ 57` (`parse_error_bound_partial`) and
+    in the weak form `(1/2 + |e|/116 resp. |e|/58)·ulp` for `|e| ≤ 100` (`parse_error_bound_weak`);
+    for `e` from −29 down it is checked by the oracle only.  Worst case seen: 0.70 ulp. -/
 def ParseErrorBound (f : Fmt) : Prop :=
   ∀ (m e : Int) (x : F), m.natAbs < 2 ^ f.w → fromDecimal f m e = .ok x → x.e ≠ 0 →
     -(pow2 ((x.e : Int) - f.bias)) < val f x - (m : Rat) * pow10 e ∧
@@ -485,8 +489,8 @@ def ParseErrorBound (f : Fmt) : Prop :=
 
 /-- fragment of `ParseErrorBound` for `exp10 = 0` (no `E` part, no fraction digits): `from_decimal`
     returns exactly what `from_int` returns — which is exact for `|m| < 2^w`
-    (`PcbV.Mbf.fromInt_exact`, Lemmas/C06Exact) — so integer literals up to 2^24 / 2^56 are stored
-    exactly.  Gap to the full bound: the accumulated error of `|exp10|` chained mul10/div10 steps. -/
+    (`PcbV.Decimal.fromInt_exact_val`) — so integer literals up to 2^24 / 2^56 are stored exactly.
+    (Kept from the first round; `parse_error_bound_partial` now covers `−28 ≤ exp10 ≤ 57`.) -/
 theorem parse_exact_exp0_partial (f : Fmt) (hf : f.WF) (m : Int) (x : F) (hx : x.Valid f) (he : x.e ≠ 0)
     (h : fromInt f m = .ok x) : fromDecimal f m 0 = .ok x := by
   have hm : m ≠ 0 := by
@@ -497,6 +501,162 @@ theorem parse_exact_exp0_partial (f : Fmt) (hf : f.WF) (m : Int) (x : F) (hx : x
   rw [if_neg hm, h]
   simp only [Int.lt_irrefl, if_false, Int.toNat_zero, iter]
   exact normD_denorm f hf x hx he
+
+
+/-! ## 6. error bounds of the ×10 / ÷10 steps and of `from_decimal` (deepening) -/
+
+/-- **One `_mul10_den` step**, for any format with the mask shapes of the source: on a normalised
+    extended mantissa (`den_mask ≤ man < den_upper`, exponent ≥ 0) the result is normalised, has the
+    same sign, and its value differs from ten times the input by at most one unit of the result's
+    extended mantissa — a relative error of at most `17/(16·den_mask)` (≈ 2^-(w+7)) measured against
+    either value. -/
+theorem mul10_step_error (f : Fmt) (hf : f.WF) (d : Den) (he : 0 ≤ d.exp) (hn : Norm f d) :
+    Norm f (mul10Den f d) ∧ (mul10Den f d).neg = d.neg ∧ 0 ≤ (mul10Den f d).exp ∧
+      |mag f (mul10Den f d) - 10 * mag f d| ≤ 17 / (16 * f.denMask) * mag f (mul10Den f d) ∧
+      |mag f (mul10Den f d) - 10 * mag f d| ≤ 17 / (16 * f.denMask) * (10 * mag f d) := by
+  obtain ⟨a, b, c, d1, d2⟩ := mul10_near f hf d he hn
+  exact ⟨a, b, c, d1, d2⟩
+
+/-- **One `_div10_den` step**: on a normalised extended mantissa the result is normalised, has the same
+    sign, and differs from a tenth of the input by at most a fifth of a unit of the input's extended
+    mantissa (the long division by `0xA0…0` with its strict comparison and the three inexact last
+    halvings 5→2→1 of the divisor gives `4·man − 8 ≤ 5·q ≤ 4·man + 3`) — a relative error of at most
+    `17/(8·den_mask)` (≈ 2^-(w+6)). -/
+theorem div10_step_error (f : Fmt) (hf : f.WF) (ht : TenOK f) (d : Den) (hn : Norm f d) :
+    Norm f (div10Den f d) ∧ (div10Den f d).neg = d.neg ∧
+      |mag f (div10Den f d) - mag f d / 10| ≤ 17 / (8 * f.denMask) * mag f (div10Den f d) ∧
+      |mag f (div10Den f d) - mag f d / 10| ≤ 17 / (8 * f.denMask) * (mag f d / 10) := by
+  obtain ⟨a, b, d1, d2⟩ := div10_near f hf ht d hn
+  exact ⟨a, b, d1, d2⟩
+
+/-- the constant ten of both formats has the shape the division lemma needs -/
+theorem ten_facts : TenOK single ∧ TenOK double := ⟨single_ten, double_ten⟩
+
+theorem pow10_nonneg_eq (e : Int) (h : 0 ≤ e) : pow10 e = (10 : Rat) ^ e.toNat := by
+  unfold pow10; rw [if_pos h]
+
+theorem pow10_neg_eq (e : Int) (h : e < 0) : pow10 e = (1 / 10 : Rat) ^ (-e).toNat := by
+  unfold pow10; rw [if_neg (by omega), one_div_pow]
+
+/-- **Parsing error bound, weak form** (all of `from_decimal` for a digit string that fits the
+    mantissa): for `|m| < 2^w`, `|exp10| ≤ 100`, whenever `from_decimal(m, exp10)` stores a non-zero
+    value `x` (no Overflow, no underflow to zero),
+    `|val x − m·10^exp10| ≤ (1/2 + |exp10|/116)·ulp` for `exp10 ≥ 0` and
+    `≤ (1/2 + |exp10|/58)·ulp` for `exp10 < 0`, where `ulp = 2^(x.e − bias)`.
+    (1/2 from the closing round-to-nearest of `_normalise`; the rest is `|exp10|` times the one-step
+    relative errors above — exactly (65/64)²·(17/16)/128 resp. (65/64)²·(17/8)/128 per step —
+    converted to units of the last place at the worst mantissa.)  This is below one ulp for
+    `−28 ≤ exp10 ≤ 57` and reaches 1.16 ulp at `exp10 = −38`; the check's worst observed case is
+    0.70 ulp.  A per-step worst-case analysis cannot do better than 1/2 + 38·(2/den_mask)·2S = 1.09 ulp
+    at −38: the long division really can be 1.6 units low in every step. -/
+theorem parse_error_bound_weak (f : Fmt) (hf : f.WF) (ht : TenOK f) (hb : f.bias ≤ 255)
+    (m e : Int) (x : F) (hm : m.natAbs < 2 ^ f.w) (hE : e.natAbs ≤ 100)
+    (h : fromDecimal f m e = .ok x) (hxe : x.e ≠ 0) :
+    |val f x - (m : Rat) * pow10 e| ≤
+      (1 / 2 + (e.natAbs : Rat) * (if e ≥ 0 then 1 / 116 else 1 / 58)) * pow2 ((x.e : Int) - f.bias) := by
+  have hm0 : m ≠ 0 := by
+    intro h0; subst h0
+    rw [zero_mantissa] at h
+    injection h with h; rw [← h] at hxe; exact hxe rfl
+  obtain ⟨x0, h0, hx0, hv0⟩ := fromInt_exact_val f hf hb m hm0 hm
+  obtain ⟨hpos, hneg⟩ := fromDecimal_err f hf ht m e x0 x h0 hx0 hv0 hm0 hE h hxe
+  rw [C04.pow2_eq_p2]
+  have hu := C04.p2_pos ((x.e : Int) - f.bias)
+  by_cases he : 0 ≤ e
+  · rw [pow10_nonneg_eq e he, if_pos he]
+    refine le_trans (hpos he) (mul_le_mul_of_nonneg_right ?_ hu.le)
+    have hn : (e.toNat : Rat) = (e.natAbs : Rat) := by
+      have : e.toNat = e.natAbs := by omega
+      rw [this]
+    rw [hn]
+    have : (0 : Rat) ≤ e.natAbs := Nat.cast_nonneg _
+    nlinarith
+  · have he' : e < 0 := by omega
+    rw [pow10_neg_eq e he', if_neg he]
+    refine le_trans (hneg he') (mul_le_mul_of_nonneg_right ?_ hu.le)
+    have hn : ((-e).toNat : Rat) = (e.natAbs : Rat) := by
+      have : (-e).toNat = e.natAbs := by omega
+      rw [this]
+    rw [hn]
+    have : (0 : Rat) ≤ e.natAbs := Nat.cast_nonneg _
+    nlinarith
+
+/-- **`ParseErrorBound` for `−28 ≤ exp10 ≤ 57`** (so for every non-negative exponent of the range):
+    the stored value is strictly less than one unit in the last place away from `m·10^exp10`.
+    Gap to the full `ParseErrorBound`: exponents −29 … −38 (and below), where the proved constant of
+    the division step (relative 17/(8·den_mask) per step) only gives up to 1.16 ulp. -/
+theorem parse_error_bound_partial (f : Fmt) (hf : f.WF) (ht : TenOK f) (hb : f.bias ≤ 255)
+    (m e : Int) (x : F) (hm : m.natAbs < 2 ^ f.w) (he1 : -28 ≤ e) (he2 : e ≤ 57)
+    (h : fromDecimal f m e = .ok x) (hxe : x.e ≠ 0) :
+    -(pow2 ((x.e : Int) - f.bias)) < val f x - (m : Rat) * pow10 e ∧
+      val f x - (m : Rat) * pow10 e < pow2 ((x.e : Int) - f.bias) := by
+  have hw := parse_error_bound_weak f hf ht hb m e x hm (by omega) h hxe
+  have hu : 0 < pow2 ((x.e : Int) - f.bias) := by rw [C04.pow2_eq_p2]; exact C04.p2_pos _
+  have hlt : (1 / 2 + (e.natAbs : Rat) * (if e ≥ 0 then 1 / 116 else 1 / 58)) < 1 := by
+    by_cases he : e ≥ 0
+    · rw [if_pos he]
+      have : (e.natAbs : Rat) ≤ 57 := by exact_mod_cast (by omega : e.natAbs ≤ 57)
+      linarith
+    · rw [if_neg he]
+      have : (e.natAbs : Rat) ≤ 28 := by exact_mod_cast (by omega : e.natAbs ≤ 28)
+      linarith
+  have hstrict : |val f x - (m : Rat) * pow10 e| < pow2 ((x.e : Int) - f.bias) := by
+    refine lt_of_le_of_lt hw ?_
+    calc _ < 1 * pow2 ((x.e : Int) - f.bias) := mul_lt_mul_of_pos_right hlt hu
+      _ = _ := one_mul _
+  exact abs_lt.mp hstrict
+
+
+/-- fragment of `PrintErrorBound`: **the scaling loops of `to_decimal`**.  The dividing loop performs
+    some number `k` of `_div10_den` steps and reports `exp10 = k`; the value it leaves is the stored
+    value divided by `10^k` up to the factor `(1 + 17/(8·den_mask))^k` either way (`|k| ≤ 39` in
+    range, so about 2·10^-8 for Singles).  Likewise the multiplying loop performs `k` `_mul10_den`
+    steps (factor `(1 + 17/(16·den_mask))^k`) from any normalised value with non-negative exponent.
+    Gap to `PrintErrorBound`: the two `_apply_carry_den` roundings and the final half-up rounding to an
+    integer, which together with this scaling error must stay below one unit of the last digit. -/
+theorem print_scaling_partial (f : Fmt) (hf : f.WF) (ht : TenOK f) :
+    (∀ (x : F) (t : Den) (fuel : Nat) (r : Den × Int), x.Valid f → x.e ≠ 0 →
+      divLoop10 f t fuel (denorm f x) 0 = some r →
+      ∃ k : Nat, r.2 = k ∧ Norm f r.1 ∧ r.1.neg = isNeg f x ∧
+        mag f r.1 ≤ (1 + 17 / 8 / f.denMask) ^ k * ((1 / 10) ^ k * |val f x|) ∧
+        (1 / 10) ^ k * |val f x| ≤ (1 + 17 / 8 / f.denMask) ^ k * mag f r.1) ∧
+    (∀ (d b : Den) (e : Int) (fuel : Nat) (r : Den × Int), Norm f d → 0 ≤ d.exp →
+      mulLoop10 f b fuel d e = some r →
+      ∃ k : Nat, r.2 = e - k ∧ Norm f r.1 ∧ r.1.neg = d.neg ∧
+        mag f r.1 ≤ (1 + 17 / 16 / f.denMask) ^ k * (10 ^ k * mag f d) ∧
+        10 ^ k * mag f d ≤ (1 + 17 / 16 / f.denMask) ^ k * mag f r.1) := by
+  have hMpos : (0 : Rat) < f.denMask := by
+    obtain ⟨hS, _, _, hdm, _⟩ := wf_S f hf
+    have : 0 < f.denMask := by omega
+    exact_mod_cast this
+  constructor
+  · intro x t fuel r hx hxe h
+    obtain ⟨k, h1, h2⟩ := divLoop10_iter f t fuel _ _ r h
+    have hη : (17 : Rat) / (8 * f.denMask) = 17 / 8 / f.denMask := by rw [div_div]
+    obtain ⟨c1, c2, c3, c4⟩ := near_chain f (div10Den f) (17 / 8 / f.denMask) (1 / 10)
+      (fun d => Norm f d) (div_nonneg (by norm_num) hMpos.le) (by norm_num)
+      (fun d hd => by
+        obtain ⟨a, b, dd⟩ := div10_near f hf ht d hd
+        rw [hη, show mag f d / 10 = 1 / 10 * mag f d from by ring] at dd
+        exact ⟨a, b, dd⟩) k (denorm f x) (denorm_norm f hf x hx)
+    have hmag : mag f (denorm f x) = |val f x| := by
+      rw [← C04.dval_denorm f hf x hxe]
+      unfold C04.dval mag
+      rw [C04.abs_sgn_mul, abs_of_nonneg (C04.dmag_nonneg f _ _)]
+    rw [hmag] at c3 c4
+    rw [h1]
+    exact ⟨k, by rw [h2]; simp, c1, by rw [c2, (denorm_man f hf x).2.2], c3, c4⟩
+  · intro d b e fuel r hd he h
+    obtain ⟨k, h1, h2⟩ := mulLoop10_iter f b fuel _ _ r h
+    have hη : (17 : Rat) / (16 * f.denMask) = 17 / 16 / f.denMask := by rw [div_div]
+    obtain ⟨c1, c2, c3, c4⟩ := near_chain f (mul10Den f) (17 / 16 / f.denMask) 10
+      (fun d => Norm f d ∧ 0 ≤ d.exp) (div_nonneg (by norm_num) hMpos.le) (by norm_num)
+      (fun d hd => by
+        obtain ⟨a, b', c, dd⟩ := mul10_near f hf d hd.2 hd.1
+        rw [hη] at dd
+        exact ⟨⟨a, c⟩, b', dd⟩) k d ⟨hd, he⟩
+    rw [h1]
+    exact ⟨k, h2, c1.1, c2, c3, c4⟩
 
 /-! ## non-vacuity -/
 
@@ -518,5 +678,11 @@ example : floatToStr sng ⟨0x400000, 0x81⟩ true false = some [32, 49, 46, 53]
 example : floatToStr sng ⟨0x1502F9, 0xA2⟩ false true = some [49, 69, 43, 49, 48] := by decide +kernel
 example : integerToStr 0xFFFE true = [45, 50] := by decide +kernel
 example : F.Valid double ⟨0x4ECB8F27F4200C, 0xDA⟩ := by decide
+-- hypotheses of `parse_error_bound_partial` are satisfiable: 1.5 (m = 15, e = −1) and 1E+38
+example : fromDecimal single 15 (-1) = .ok ⟨0x400000, 0x81⟩ := by decide +kernel
+example : (match fromDecimal single 1 38 with | .ok x => decide (x.e ≠ 0) | _ => false) = true := by
+  decide +kernel
+example : (match fromDecimal double 1234567890123456 (-28) with | .ok x => decide (x.e ≠ 0) | _ => false) = true := by
+  decide +kernel
 
 end PcbV.C07
